@@ -113,6 +113,41 @@ def _work(job: U.Job) -> evid.Local:
     return loc
 
 
+def deep_filters(ctx: t.Any) -> None:
+    """Search requests whose filter is nested 100 / 300 / 450 deep (the decoder's limit is the interpreter's recursion
+    limit, ~490 levels): packed, decoded, compared with an explicit stack, re-packed, and delivered to a server session."""
+    import dataclasses
+
+    import sansldap as L
+    from sansldap.asn1 import ASN1Reader
+
+    from vf.checks.c15 import same_filter
+
+    leaf = L.FilterEquality("cn", b"v")
+    for depth in (100, 300, 450):
+        for shape in ("not", "and", "or", "mix"):
+            node: t.Any = leaf
+            for i in range(depth):
+                op = shape if shape != "mix" else ("not", "and", "or")[i % 3]
+                node = L.FilterNot(node) if op == "not" else L.FilterAnd([node, L.FilterPresent("a")]) if op == "and" else L.FilterOr([L.FilterPresent("a"), node])
+            m = L.SearchRequest(5, [], "dc=x", L.SearchScope.SUBTREE, L.DereferencingPolicy.NEVER, 0, 0, False, node, ["cn"])
+            ctx.add("states")
+            ctx.add("transitions", 4)
+            case = {"order": "deep-filter", "msg": None, "deep": [shape, depth]}
+            try:
+                data = m.pack(K.OPTS)
+                m2 = K.unpack_ldap_message(ASN1Reader(data), K.OPTS)
+                again = m2.pack(K.OPTS)
+                got = L.LDAPServer().receive(data)
+            except BaseException as e:  # noqa: BLE001
+                ctx.violation(f"deep-filter-raises:{type(e).__name__}", f"search request with a {shape} filter nested {depth} deep: {type(e).__name__}: {str(e)[:100]}", case)
+                continue
+            ok = same_filter(m.filter, m2.filter) and dataclasses.replace(m2, filter=leaf) == dataclasses.replace(m, filter=leaf) and again == data
+            ok = ok and len(got) == 1 and same_filter(got[0].filter, node)
+            if not ok:
+                ctx.violation("deep-filter-differs", f"search request with a {shape} filter nested {depth} deep does not survive pack / unpack", case)
+
+
 def run(ctx: evid.Ctx) -> None:
     thorough = ctx.tier == "thorough"
     d = 3 if thorough else 2
@@ -128,6 +163,7 @@ def run(ctx: evid.Ctx) -> None:
         if r:
             ctx.violation(r[0], r[1], {"msg": A.src(m) if len(A.src(m)) < 2000 else None, "big": type(m).__name__})
     options_history(ctx)
+    deep_filters(ctx)
     jobs = U.jobs(ks, d)
     jobs.sort(key=lambda j: -U.job_size(ks, j))
     for loc in par.pmap(_work, jobs, ctx.seed):
@@ -144,6 +180,7 @@ def run(ctx: evid.Ctx) -> None:
         "string_encoding utf-8 (the session default); strings without lone surrogates",
         "a generic LDAPControl never carries a library-known OID (it decodes as the known class by design)",
         "filter and controls fields use a reduced crossing domain when deviating together with other fields",
+        "filters nested up to 450 levels; deeper ones exceed the interpreter's recursion limit in the decoder (reported as ProtocolError by receive, see C05): resource exhaustion, not covered",
     ]
 
 
@@ -151,6 +188,7 @@ def replay(case: t.Dict[str, t.Any], key: t.Optional[str] = None) -> t.Tuple[boo
     if "order" in case or case.get("msg") is None:
         c = evid.Ctx("C01", "quick", 0)
         options_history(c)
+        deep_filters(c)
         for m in U.big_messages():
             r = check_one(m, SUFFIXES_QUICK)
             if r:
